@@ -22,6 +22,12 @@ impl BytesMut {
     #[verifier::external_body]
     pub fn remaining_mut(&self) -> (r: usize) ensures r as int == usize::MAX as int - self@.len() { unimplemented!() }
 }
+// A-bytes-31: BytesMut::chunk_mut hands out the spare (uninitialised) capacity after the written bytes; it writes nothing itself
+pub struct UninitSlice { pub x: u8 }
+impl BytesMut {
+    #[verifier::external_body]
+    pub fn chunk_mut(&mut self) -> (r: &mut UninitSlice) ensures final(self)@ == old(self)@, final(self).reserve_bound == old(self).reserve_bound { unimplemented!() }
+}
 // assert!(c): panics unless c - under contract that is a precondition of the enclosing function (shadow macro: the condition
 // is an `if` whose failing branch must be shown unreachable, so a call that could trip it does not verify)
 #[allow(unused_macros)]
@@ -38,6 +44,9 @@ def build():
     u.raw('''impl<'a> DecodeBuf<'a> {
     pub open spec fn wf(&self) -> bool { self.len <= (*self.buf)@.len() }
     pub open spec fn payload(&self) -> Seq<u8> { (*self.buf)@.take(self.len as int) }
+}
+impl<'a> EncodeBuf<'a> {
+    pub open spec fn written(&self) -> Seq<u8> { (*self.buf)@ }
 }''')
     hd = "impl Buf for DecodeBuf<'_>"
     u._emit("impl<'a> DecodeBuf<'a> {"); u._open_header = "impl<'a> DecodeBuf<'a> {"
@@ -65,5 +74,13 @@ def build():
          ensures=[Clause('E3_a_write_appends_exactly_these_bytes', '(*final(self).buf)@ == (*old(self).buf)@ + src@ && ' + fr, PE)])
     u.fn(B, 'put_bytes', within=he, display='EncodeBuf::put_bytes', props=PE,
          ensures=[Clause('E4_a_fill_appends_exactly_cnt_copies', '(*final(self).buf)@ == (*old(self).buf)@ + Seq::new(cnt as nat, |i: int| val) && ' + fr, PE)])
+    u.fn(B, 'remaining_mut', within=he, display='EncodeBuf::remaining_mut', props=PE,
+         ensures=[Clause('E5_as_much_room_as_the_send_buffer_has', 'r as int == usize::MAX as int - self.written().len()', PE)])
+    u.fn(B, 'advance_mut', within=he, display='EncodeBuf::advance_mut', props=PE,
+         ensures=[Clause('E6_advancing_keeps_every_byte_written_so_far', '(*final(self).buf)@.len() == (*old(self).buf)@.len() + cnt && (*final(self).buf)@.take((*old(self).buf)@.len() as int) == (*old(self).buf)@ && ' + fr, PE)])
+    u.fn(B, 'chunk_mut', within=he, display='EncodeBuf::chunk_mut', props=PE,
+         ensures=[Clause('E7_handing_out_spare_capacity_writes_nothing', '(*final(self).buf)@ == (*old(self).buf)@ && ' + fr, PE)])
+    u.fn(B, 'put', within=he, display='EncodeBuf::put', props=PE, sig_edits=[lambda t: t.sub_code('R12', r'T: Buf', 'T: HasBytes')],
+         ensures=[Clause('E8_a_buffer_is_appended_whole', '(*final(self).buf)@ == (*old(self).buf)@ + src.bytes_view() && ' + fr, PE)])
     u.close('}')
     return u
